@@ -124,3 +124,49 @@ def cap_aliases(cx, cfg):
                             if len(m) == 1:
                                 out[fld] = m[0]
     return out
+
+
+def policy_hygiene(cx, chk, cfg, F, short, rule_peek, rule_purge):
+    """shared by C07-C10: (a) the non-use operations of the cache (peek*, contains, len, ..., per-segment accessors) reach no mutation, so
+    they can neither promote nor refresh; (b) purge empties every retained list (derived from the struct definition)"""
+    from .effects import mutation_events
+    adt = api.CACHES[short]
+    n = 0
+    for f, im, why in api.readonly_methods(F):
+        if im["self_head"].lstrip("&").replace("mut ", "") != adt:
+            continue
+        n += 1
+        bad = [m for p in cx.paths(cfg, f["path"]) for m in mutation_events(p, False)]
+        if bad:
+            chk.violation(rule_peek, "%s|%s|%s" % (f["q"], bad[0]["kind"], bad[0]["what"]),
+                          "%s is a non-use operation but changes the cache (%s): it promotes/refreshes an entry or alters policy state" % (f["q"], bad[0]["text"]),
+                          f["span"]["file"], bad[0].get("ln") or f["span"]["lo"], f["q"], None, cfg)
+        else:
+            chk.ob(rule_peek, "%s:%s" % (cfg, f["q"]), "no mutation")
+    if n < 5:
+        raise AnalysisError("%s: only %d read-only methods found" % (short, n))
+    f = cache_method(F, adt, "purge")
+
+    def lists(a, prefix=()):
+        out = []
+        for name, head in list_fields(F, a):
+            if head == api.CACHES["RawLRU"]:
+                out.append(prefix + (name,))
+            else:
+                out += lists(head, prefix + (name,))
+        return out
+    retained = set(lists(adt))
+    for p in cx.paths(cfg, f["path"]):
+        purged = set()
+        for e in p.events:
+            if e["ev"] == "enter" and e["q"].endswith("::purge") and e["args"] and isinstance(e["args"][0], tuple) and e["args"][0][0] == "ref":
+                l = e["args"][0][1]
+                if l[0] == "H" and l[1] == ("param", 1, True):
+                    purged.add(l[2])
+        purged = set(x for x in retained if any(x[:len(y)] == y for y in purged))
+        if retained - purged:
+            chk.violation(rule_purge, "%s::purge|%s" % (short, ",".join(".".join(x) for x in sorted(retained - purged))),
+                          "%s::purge leaves %s untouched: entries (or ghosts) survive a purge and steer later decisions" % (short, sorted(".".join(x) for x in retained - purged)),
+                          f["span"]["file"], f["span"]["lo"], f["q"], None, cfg)
+        else:
+            chk.ob(rule_purge, "%s:%s::purge" % (cfg, short), "purges %s" % sorted(".".join(x) for x in retained))
